@@ -249,7 +249,7 @@ fn c05_mreg_max_mae_mse_median() {
     kani::cover!(o_max(&a0, &b0) != o_max(&a1, &b1) && o_mse(&a0, &b0) != o_mse(&a1, &b1));
 }
 
-// @unit class=bounded tier=thorough mem=heavy timeout=900 bound="n=2 rows,2 columns,column 0 symbolic |v|<=2,column 1 fixed,truth non-constant" fns=linfa::metrics_regression::MultiTargetRegression::r2
+// @unit class=bounded tier=thorough mem=heavy timeout=1500 bound="n=2 rows,2 columns,column 0 symbolic |v|<=2,column 1 fixed,truth non-constant" fns=linfa::metrics_regression::MultiTargetRegression::r2
 #[kani::proof]
 #[kani::unwind(6)]
 #[kani::solver(kissat)]
@@ -297,7 +297,7 @@ fn c05_mreg_msle() {
     kani::cover!(a0[0] != b0[0] && a1[0] == b1[0] && r[0] > 0.0 && r[1] == 0.0);
 }
 
-// @unit class=bounded tier=thorough mem=heavy timeout=900 bound="n=2 rows,2 columns,column 0 symbolic |v|<=2,column 1 fixed,truth non-constant" fns=linfa::metrics_regression::MultiTargetRegression::explained_variance
+// @unit class=bounded tier=thorough mem=heavy timeout=1500 bound="n=2 rows,2 columns,column 0 symbolic |v|<=2,column 1 fixed,truth non-constant" fns=linfa::metrics_regression::MultiTargetRegression::explained_variance
 #[kani::proof]
 #[kani::unwind(6)]
 #[kani::solver(kissat)]
